@@ -75,10 +75,11 @@ Definition text_ok (s : bytes) : bool := forallb (fun b => negb (is_esc b) && ne
 Definition esc_free (s : bytes) : bool := forallb (fun b => negb (is_esc b)) s.
 
 (* the values colour mode prints verbatim are exactly: the float, complex and time text of the
-   standard library and the %v fallback text (struct, map, ...); and every key *)
+   standard library (the %v fallback text of struct, map, ... is quoted since /repo 0c009c6);
+   and every key *)
 Fixpoint value_ok (v : value) : bool :=
   match v with
-  | VFloat t | VComplex t | VTime t | VFallback t => text_ok t
+  | VFloat t | VComplex t | VTime t => text_ok t
   | VFloats l | VTimes l => forallb text_ok l
   | VGroup items =>
       (fix go (l : list attr) : bool :=
@@ -152,8 +153,8 @@ Definition q (s : bytes) : bytes := quote_go isprint s.
 Definition nil_text : bytes := [x3c;x6e;x69;x6c;x3e].
 Definition lay_key (grp : bool) (dk : bytes) : bytes := if grp then [] else dk ++ [x3d].
 
-(* the text of a value: strings, errors, durations and byte slices quoted; numbers, booleans,
-   <nil>, times and the fallback text bare; slices bracketed.  A group stands for its members
+(* the text of a value: strings, errors, durations, byte slices and the %v fallback text quoted;
+   numbers, booleans, <nil> and times bare; slices bracketed.  A group stands for its members
    (each " key=value" under the dotted key); the blank of the group itself is kept, so a
    group shows as one extra blank in front of its members *)
 Fixpoint lay_value (pfx : bytes) (v : value) {struct v} : bytes :=
@@ -169,7 +170,7 @@ Fixpoint lay_value (pfx : bytes) (v : value) {struct v} : bytes :=
   | VDur t => q t
   | VTime t => t
   | VBytes s => q s
-  | VFallback t => t
+  | VFallback t => q t
   | VStrs l => bracket (map q l)
   | VBools l => bracket (map bool_text l)
   | VInts l => bracket (map dec_of_Z l)
@@ -211,10 +212,10 @@ End Layout.
 
 (* ---------- C06_values_clean: which texts a value contributes verbatim ---------- *)
 (* the texts of a value that reach the terminal as they are (not quoted, not computed by the
-   encoder): keys and the standard-library / fallback texts *)
+   encoder): keys and the standard-library number / time texts *)
 Fixpoint raw_texts (v : value) : list bytes :=
   match v with
-  | VFloat t | VComplex t | VTime t | VFallback t => [t]
+  | VFloat t | VComplex t | VTime t => [t]
   | VFloats l | VTimes l => l
   | VGroup items =>
       (fix go (l : list attr) : list bytes :=
